@@ -69,6 +69,9 @@ type c11Case struct {
 	// HugeIn (with Huge): 0 = inputs of 1000; 1 = inputs of 5000 (more than the outputs' sum modulo 2^64);
 	// 2 = two inputs of 2^63 each (their sum wraps as well: mathematically inputs exceed the first output by 4)
 	HugeIn int `json:"huge_inputs,omitempty"`
+	// NullPrev: the first input spends an all-zero previous txid (1: at its own index, 2: at index
+	// 0xffffffff - the shape of a coinbase input); its recorded value counts like any other input's
+	NullPrev int `json:"null_prev,omitempty"`
 }
 
 func c11Build(c c11Case) *txref.Tx {
@@ -144,6 +147,14 @@ func c11Check(c c11Case) (fs []rep.Finding) {
 		for i := 0; i < 2; i++ {
 			ref.Ins[i].PrevSats = 1 << 63
 			est.Ins[i].PrevSats = 1 << 63
+		}
+	}
+	if c.NullPrev > 0 && len(ref.Ins) > 0 {
+		for _, t := range []*txref.Tx{ref, est} {
+			t.Ins[0].TxID = make([]byte, 32)
+			if c.NullPrev == 2 {
+				t.Ins[0].Vout = 0xffffffff
+			}
 		}
 	}
 	tx := toLib(ref)
@@ -292,6 +303,14 @@ func c11ErrCheck(c c11Err) (fs []rep.Finding) {
 		tx.Inputs[c.Pos].PreviousTxScript = libScript(tp["ms1of1"])
 	case 6:
 		tx.Inputs[c.Pos].PreviousTxScript = libScript(append(append([]byte(nil), tp["p2pkh"]...), 0x61))
+	case 12, 13, 14, 15:
+		// a P2PKH prefix followed by something that only begins like an inscription envelope
+		tx.Inputs[c.Pos].PreviousTxScript = libScript([][]byte{
+			bytesJoin(tp["p2pkh"], []byte{0x00, 0x63, 0x03, 'o', 'r', 'd'}),
+			bytesJoin(tp["p2pkh"], []byte{0x00, 0x63, 0x03, 'o', 'r', 'd', 0x51, 0x4c}),
+			bytesJoin(tp["p2pkh"], []byte{0x00, 0x63, 0x03, 'o', 'r', 'd', 0x51, 0x01, 0x41, 0x00, 0x01, 0x42}),
+			bytesJoin(tp["p2pkh"], []byte{0x00, 0x63, 0x03, 'a', 'b', 'c', 0x51, 0x01, 0x41, 0x00, 0x01, 0x42, 0x68}),
+		}[c.Kind-12])
 	case 7, 8, 9, 10, 11:
 		// scripts that look like P2PKH once push prefixes are dropped, but are not the 25-byte template
 		h := fill(20, 0x5c)
@@ -396,7 +415,7 @@ func c11RefreshCheck(c c11Refresh) (fs []rep.Finding) {
 
 func init() {
 	p := register(&Prop{ID: "C11", Level: "exploration",
-		Rule: "exhaustive: (accounting) every multiset-ordered choice of <=2 (quick) / <=3 (thorough) outputs from 13 script kinds (P2PKH, OP_RETURN alone/empty/1/75/76-byte, OP_FALSE OP_RETURN with 65536-byte payload and bare, `00`, `00 51 6a`, empty, OP_RETURN not first) x inputs 0..3 x signing state (none/all/first/short scripts) x 11 fee quotes (independent std/data rates incl. >1 sat/byte, non-dyadic rates, zero) x in-out placed at {fee-1, fee, fee+1, out>in, equal, ample} relative to the big-integer reference fee of the actual and of the estimated size: TotalBytes=len(bytes)=Std+Data, fee = floor+floor, predicates exact; (signed) 8 keys x nIn 1..3 x nOut 0..2 x every subset of inputs pre-signed x plain/inscription spent script, paying to the hash of the compressed key, of the uncompressed form of the same key, or of another key: EstimateSize >= size after FillAllInputs; (counts) 252/253/254 outputs with 0..2 inputs and 252/253/254 inputs with 0..2 outputs x quotes x fee relations; (errors) every position x 12 missing/unsupported spent scripts (incl. five P2PKH look-alikes: hash through PUSHDATA1, opcodes as pushed bytes, 21-byte hash, leading NOP) x signed/unsigned: every estimator returns an error; (wrap) outputs totalling 2^64-4 and more against inputs of 1000, of 5000 (more than the outputs' sum modulo 2^64) and of 2^63+2^63; (quote forms) the same quotes assembled through 8 other call sequences (refreshed from JSON into a quote object that already held default / other rates, Fee objects labelled with the other type, unlabelled, through FeeQuotes.UpdateMinerFees, update of existing entries, relabelled copy, a fresh default quote after another default quote's Fee objects were changed in place); (quote refresh) 3 prior states of a quote object x 8 JSON documents (both types, one type only, empty, unknown type after a valid entry, bad unit in a later entry, truncated, not an object): after an accepted document the quote holds exactly its entries, after a rejected one what it held before, and fees follow; (builders) outputs built by AddOpReturnOutput / AddOpReturnPartsOutput / CreateOpReturnOutput for item lengths {1,2,75,76,255,256,65535,65536} (single and pairs) and AddHashPuzzleOutput: script equals the reference layout and is counted as data / standard bytes accordingly. distinct_nontrivial = distinct (tx bytes, quote, relation) triples",
+		Rule: "exhaustive: (accounting) every multiset-ordered choice of <=2 (quick) / <=3 (thorough) outputs from 13 script kinds (P2PKH, OP_RETURN alone/empty/1/75/76-byte, OP_FALSE OP_RETURN with 65536-byte payload and bare, `00`, `00 51 6a`, empty, OP_RETURN not first) x inputs 0..3 x signing state (none/all/first/short scripts) x 11 fee quotes (independent std/data rates incl. >1 sat/byte, non-dyadic rates, zero) x in-out placed at {fee-1, fee, fee+1, out>in, equal, ample} relative to the big-integer reference fee of the actual and of the estimated size: TotalBytes=len(bytes)=Std+Data, fee = floor+floor, predicates exact; (signed) 8 keys x nIn 1..3 x nOut 0..2 x every subset of inputs pre-signed x plain/inscription spent script, paying to the hash of the compressed key, of the uncompressed form of the same key, or of another key: EstimateSize >= size after FillAllInputs; (counts) 252/253/254 outputs with 0..2 inputs and 252/253/254 inputs with 0..2 outputs x quotes x fee relations; (errors) every position x 16 missing/unsupported spent scripts (incl. five P2PKH look-alikes: hash through PUSHDATA1, opcodes as pushed bytes, 21-byte hash, leading NOP; and four P2PKH prefixes followed by a broken inscription envelope: opener only, truncated push, no OP_ENDIF, another tag) x signed/unsigned: every estimator returns an error; (null outpoint) one or two inputs the first of which spends an all-zero previous txid (at its own index / at index 0xffffffff) x quotes x the six fee relations: its value counts; (wrap) outputs totalling 2^64-4 and more against inputs of 1000, of 5000 (more than the outputs' sum modulo 2^64) and of 2^63+2^63; (quote forms) the same quotes assembled through 9 other call sequences (a relay fee that differs from the mining fee, refreshed from JSON into a quote object that already held default / other rates, Fee objects labelled with the other type, unlabelled, through FeeQuotes.UpdateMinerFees, update of existing entries, relabelled copy, a fresh default quote after another default quote's Fee objects were changed in place); (quote refresh) 3 prior states of a quote object x 8 JSON documents (both types, one type only, empty, unknown type after a valid entry, bad unit in a later entry, truncated, not an object): after an accepted document the quote holds exactly its entries, after a rejected one what it held before, and fees follow; (builders) outputs built by AddOpReturnOutput / AddOpReturnPartsOutput / CreateOpReturnOutput for item lengths {1,2,75,76,255,256,65535,65536} (single and pairs) and AddHashPuzzleOutput: script equals the reference layout and is counted as data / standard bytes accordingly. distinct_nontrivial = distinct (tx bytes, quote, relation) triples",
 	})
 	sA := NewSpace(p, "accounting", c11Check)
 	sS := NewSpace(p, "signed", c11SignCheck)
@@ -468,8 +487,13 @@ func init() {
 			for nin := 1; nin <= 2; nin++ {
 				for _, q := range c11Quotes {
 					for rel := 0; rel < 3; rel++ {
-						for form := 1; form <= 9; form++ {
+						for form := 1; form <= 10; form++ {
 							bc = append(bc, c11Case{Outs: os, NIn: nin, Signed: 2, Q: q, Rel: rel, QForm: form}, c11Case{Outs: os, NIn: nin, Signed: 0, Q: q, Rel: rel, OnEst: true, QForm: form})
+						}
+						for np := 1; np <= 2; np++ {
+							for _, r2 := range []int{rel, rel + 3} {
+								bc = append(bc, c11Case{Outs: os, NIn: nin, Signed: 1, Q: q, Rel: r2, NullPrev: np}, c11Case{Outs: os, NIn: nin, Signed: 0, Q: q, Rel: r2, OnEst: true, NullPrev: np})
+							}
 						}
 					}
 				}
@@ -534,7 +558,7 @@ func init() {
 		var ec []c11Err
 		for nin := 1; nin <= 3; nin++ {
 			for pos := 0; pos < nin; pos++ {
-				for k := 0; k < 12; k++ {
+				for k := 0; k < 16; k++ {
 					ec = append(ec, c11Err{nin, pos, k, false}, c11Err{nin, pos, k, true})
 				}
 			}
